@@ -101,7 +101,8 @@ def _gen_op(rng, name):
         return {"op": name, "extra": rng.choice([1, 2, 4]), "seed": sd,
                 "trailing": rng.random() < 0.6}
     if name == "split":
-        return {"op": name, "style": rng.choice([None, "x"])}
+        return {"op": name, "style": rng.choice([None, "x"]),
+                "with_x": rng.random() < 0.4, "seed": sd}
     if name == "extrude":
         return {"op": name, "n": rng.choice([1, 2, 3]), "seed": sd}
     if name in ("clean_unused", "clean_duplicate"):
@@ -509,7 +510,29 @@ def _step(st, o, prop, probes, faults, catcher, skm):
                 nm = sorted(s.sub)[0]
                 if len(s.sub[nm]):
                     sel = nm
-                    keep = np.array(sorted(s.sub[nm].tolist()), dtype=np.int32)
+                    keep = np.array(sorted(set(s.sub[nm].tolist())),
+                                    dtype=np.int32)
+                    _bump(probes, "restrict-by-subdomain-name")
+            elif o["how"] == "pred":
+                # a predicate on the cell midpoints, with a threshold that no
+                # midpoint comes close to (own midpoints, same definition)
+                ax = o["seed"] % s.dim
+                mid = s.p[:, s.t].mean(axis=1)[ax]
+                srt = np.sort(mid)
+                gaps = np.diff(srt)
+                if len(gaps) and gaps.max() > 1e-6 * max(1.0, abs(srt).max()):
+                    g = int(np.argmax(gaps))
+                    c = 0.5 * (srt[g] + srt[g + 1])
+                    sel = lambda x: x[ax] < c
+                    keep = np.nonzero(mid < c)[0].astype(np.int32)
+                    _bump(probes, "restrict-by-predicate")
+            elif o["how"] == "array" and len(keep) >= 2 and o["seed"] % 3 == 0:
+                # a list of selectors (two index arrays), normalised by the
+                # library to their sorted union
+                h = len(keep) // 2
+                sel = [keep[:h].copy(), keep[h:].copy()]
+                keep = np.unique(keep).astype(np.int32)
+                _bump(probes, "restrict-by-list-of-arrays")
             r = _call(lambda: m.restrict(sel), "restrict", cls)
             ix = None
         ns = Snap(r)
@@ -590,9 +613,16 @@ def _step(st, o, prop, probes, faults, catcher, skm):
 
     # ------------------------------------------------------------ split
     if name == "split":
+        xvals = None
         if s.kind == "quad" and not s.order2:
             style = o["style"]
-            r = _call(lambda: m.to_meshtri(style=style), "to_meshtri", cls)
+            if o.get("with_x"):
+                xvals = np.random.Generator(np.random.PCG64(
+                    o.get("seed", 1))).standard_normal(s.nt)
+                r, X = _call(lambda: m.to_meshtri(x=xvals, style=style),
+                             "to_meshtri(x)", cls)
+            else:
+                r = _call(lambda: m.to_meshtri(style=style), "to_meshtri", cls)
             per = 4 if style == "x" else 2
         elif s.kind in ("hex", "wedge") and not s.order2:
             if not _planar_faces(s):
@@ -607,7 +637,15 @@ def _step(st, o, prop, probes, faults, catcher, skm):
             _bump(probes, "op-skipped-not-applicable")
             return "skipped"
         ns = Snap(r)
-        _check_split(st, ns, per, probes)
+        parent = _check_split(st, ns, per, probes)
+        if xvals is not None:
+            # the elementwise constant function must keep its values: every
+            # triangle carries the value of the quadrilateral it lies in
+            X = np.asarray(X)
+            if X.shape != (ns.nt,) or not (X == xvals[parent]).all():
+                raise Bad("indexmap-elementwise-values-not-carried",
+                          expected_shape=[int(ns.nt)], got_shape=list(X.shape))
+            _bump(probes, "elementwise-values-carried-through-split")
         st.m, st.s = r, ns
         _bump(probes, "split-" + s.kind)
         return "split:%d" % ns.nt
@@ -1121,6 +1159,7 @@ def _check_split(st, ns, per, probes):
         _check_tags_against_model(st, probes, "split")
     finally:
         st.s = old
+    return parent
 
 
 # ----------------------------------------------------------------- extrude
